@@ -28,6 +28,14 @@ func mentions(v ssa.Value, pred func(ssa.Value) bool, depth int, seen map[ssa.Va
 	if pred(v) {
 		return true
 	}
+	if a, ok := v.(*ssa.Alloc); ok {
+		// a local cell: look at what is stored into it
+		for _, r := range *a.Referrers() {
+			if st, ok := r.(*ssa.Store); ok && st.Addr == a && mentions(st.Val, pred, depth-1, seen) {
+				return true
+			}
+		}
+	}
 	in, ok := v.(ssa.Instruction)
 	if !ok {
 		return false
